@@ -244,6 +244,28 @@ func c16GenOp(e *Env, lv *c10Live) c10Op {
 	default:
 		op.To = f.pool[e.Pick(len(f.pool))].Hex()
 	}
+	if op.To == "" {
+		// a creation: ethermint fills receipt.ContractAddress (the address derived from sender and nonce, whatever the
+		// constructor left there).  Mostly the contract named by one of the receipt's events - a constructor that
+		// registers / assigns the contract being created - which may or may not hold code afterwards
+		var named []string
+		for _, l := range op.Logs {
+			if l.Contract != "" {
+				named = append(named, l.Contract)
+			}
+		}
+		if len(named) > 0 && e.Chance(0.75) {
+			op.Created = named[e.Pick(len(named))]
+			if c10HasCode(f, lv.ctx, common.HexToAddress(op.Created)) {
+				e.Stats.Count("creation:created-address-named-by-an-event:holds-code")
+			} else {
+				e.Stats.Count("creation:created-address-named-by-an-event:no-code")
+			}
+		} else {
+			op.Created = f.pool[e.Pick(len(f.pool))].Hex()
+			e.Stats.Count("creation:created-address-not-named-by-an-event")
+		}
+	}
 	fee := new(big.Int).Mul(bigOf(op.GasUsed), bigOf(op.GasPrice))
 	if lv.obs.collector.Cmp(fee) < 0 {
 		op.Fund = new(big.Int).Mul(fee, big.NewInt(3)).String()
@@ -253,7 +275,7 @@ func c16GenOp(e *Env, lv *c10Live) c10Op {
 
 func runC16(e *Env) {
 	e.Header("From Coq Require Import ZArith List.\nFrom Canto Require Import Model.Csr Check.Common Check.CsrCheck.\nImport ListNotations.\nOpen Scope Z_scope.\n")
-	e.Stats.Rule = "case = well-formed csr genesis (0-3 NFTs, imported with the real InitGenesis) + a history of synthetic receipts through the real csr post-tx hook: 0-6 logs each, emitted by the stored Turnstile address or by foreign addresses (one bit away from it, zero, module account, pool contracts) with the genuine Register/Assign topics; payloads valid, duplicate contract, duplicate / aliased (2^64+k) / unknown NFT id, address without code, zero address, truncated data, dirty padding, other Turnstile events, unknown topics, no topics; a special log inserted at every position of a frame of valid events; code appearing and disappearing between receipts; csr switched off and on; fee distribution (gas price 0/1/100/1e9+7) interleaved; plus cases of real signed EVM transactions through EvmKeeper.EthereumTx whose contracts call Turnstile.register / assign (genuine Register / Assign / Transfer logs); non-trivial = the registry changed; distinct by hash of the sequence of registry listings"
+	e.Stats.Rule = "case = well-formed csr genesis (0-3 NFTs, imported with the real InitGenesis) + a history of synthetic receipts through the real csr post-tx hook: 0-6 logs each, emitted by the stored Turnstile address or by foreign addresses (one bit away from it, zero, module account, pool contracts) with the genuine Register/Assign topics; payloads valid, duplicate contract, duplicate / aliased (2^64+k) / unknown NFT id, address without code, zero address, truncated data, dirty padding, other Turnstile events, unknown topics, no topics; a special log inserted at every position of a frame of valid events; code appearing and disappearing between receipts; csr switched off and on; fee distribution (gas price 0/1/100/1e9+7) interleaved; creation receipts carry receipt.ContractAddress as ethermint fills it in (mostly the contract named by one of the receipt's events, holding code or not); plus cases of real signed EVM transactions through EvmKeeper.EthereumTx whose contracts call Turnstile.register / assign (genuine Register / Assign / Transfer logs), among them creations whose constructor registers the contract being created and then returns a one-byte runtime or NO code (at least one of the latter per case; the holds-code oracle of a creation is taken at hook time); non-trivial = the registry changed; distinct by hash of the sequence of registry listings"
 	e.ShardSize = 10 // ~25 steps per case: small shards keep the parallel Coq evaluation short
 	f := c10Setup()
 	n := e.Scale(50, 1500)
